@@ -69,7 +69,7 @@ CHECKS = {
          "the operations of Natives.tla with boundary operands (overflow-checked vs wrapping arithmetic: extreme ranges, shifts, indices) and the "
          "programs whose correctness depends on when the collector runs (C01's edge probes under each build's own collection schedule). On every build "
          "the control events (TraceVm.tla: both active-fiber representations equal at every event) and every executed instruction (TraceOps.tla: same "
-         "offsets and value-stack heights as the instruction table predicts) of the repository's scripts are trace-validated.",
+         "offsets and value-stack heights as the instruction table predicts) of the repository's scripts are trace-validated. Call chains whose value stack peaks at SlotsMax-2 .. SlotsMax (StackBudget.tla's budget; the peak measured from the instruction events of the optimised build) must complete alike on every build.",
     note=MACHINE_NOTE + " The other profile checks (C05-C09, C12-C18) already replay on dev and release; this check adds the feature matrix.",
     technique="TLA+ reference machine (TLC) + replay of the same expectations on every build configuration", design="4 C10"),
  "C13": dict(
@@ -131,7 +131,7 @@ CHECKS = {
          "(attribute names and arguments, duplicate declarations, misplaced return / break / continue / self / super, missing delimiters after line "
          "breaks) and of 1 500 mutations of the repository's multi-line scripts; the compiler's first message must be exactly that. A sample of the scenarios and of the non-compiling programs is also run by the "
          "shipped command-line program (yarel-cli, both builds): stdout, the messages on stderr and the exit status (0 / 65 / 70) must be what the "
-         "specification's result implies.",
+         "specification's result implies. The error scenarios are also replayed 2^15, 2^16 and 2^17 lines further down the file (every trace line shifted), with two fibers whose failures are pending at the same time, and Scanner.tla's token lines (comments, the end-of-input token) are compared with the scanner's for the Broad alphabet.",
     note=MACHINE_NOTE + " Module frames in traces are covered by C14's scenarios.",
     technique="TLA+ reference machine (TLC) + scenario products replayed on the implementation", design="4 C17"),
  "C18": dict(
@@ -152,7 +152,7 @@ CHECKS = {
          "define / override / super-call / super-value / omit per level, static methods, constructor chains, fields shadowing methods (also "
          "a field named like a method that an ancestor reaches through super), static methods and constructors read as values through the class, bound "
          "methods in variables and fields, superclass rebinding, local classes and all arities are executed by the machine under TLC and "
-         "replayed on checked and optimised builds.",
+         "replayed on checked and optimised builds. A class may override a method it inherits from Object itself (derives), at any level and with super.derives; subclasses inherit the override.",
     note=MACHINE_NOTE + " Scenario products are built outside TLC; not exhaustive.",
     technique="TLA+ reference machine (TLC) + scenario products replayed on the implementation", design="4 C07"),
  "C05": dict(
@@ -166,7 +166,7 @@ CHECKS = {
          "(compound assignment to properties / module attributes with every operator, chained assignments, short-circuit operators with effects, "
          "nested interpolation); every operator, index, index assignment and range construction over the adversarial operand pool of Natives.tla "
          "(outcome class and message); and the rule that an assignment is not an operand (`2 * o.x = 5` is a compile error for every operator and "
-         "every kind of target).",
+         "every kind of target). Shift counts around the word size (0, 1, 31-33, 62-65, 127, 128, negative) and bit operations on negative operands, plain and compound, are separate one-case programs.",
     note=MACHINE_NOTE, technique="TLA+ reference machine + TLC-generated programs (exhaustive + simulation) replayed on the implementation", design="4 C05"),
  "C06": dict(
     level="model_checking",
@@ -174,7 +174,7 @@ CHECKS = {
          "generator exactly as the single-pass compiler does (declaration ids in every variable node). TLC enumerates / simulates programs with "
          "blocks, functions, lambdas that read and write captured variables, loops and shadowing; a scenario family (1008 programs) crosses the "
          "capturing scope (block, if, function, while, for, try, catch, finally) x preceding locals x capture kind x exit path (fall-through, break, "
-         "continue, return, throw, failing built-in) x escape route, with stack reuse before the closure is called. Replayed on checked and optimised builds.",
+         "continue, return, throw, failing built-in) x escape route, with stack reuse before the closure is called. Replayed on checked and optimised builds. A further product suspends the declaring scope while closures over its variables exist (it yields, a function it called yields, it calls another fiber): direct and closure writes and reads must keep seeing one variable on both sides of every switch.",
     note=MACHINE_NOTE, technique="TLA+ reference machine + TLC-generated programs + scenario products replayed on the implementation", design="4 C06"),
  "C08": dict(
     level="model_checking",
@@ -186,7 +186,7 @@ CHECKS = {
          "program are validated by TraceVm.tla (a handler is popped only by its own frame, no frame returns with a handler installed, an exception lands "
          "on the innermost installed record with the recorded frame count and height, the in-flight flag changes only at Throw / Landed). The ideal run records trigger events for the "
          "six recorded try/finally findings; a differing behaviour is attributed to a finding only if its ideal run contains that finding's trigger, "
-         "every other program must agree exactly (output, outcome, error class, message, trace lines).",
+         "every other program must agree exactly (output, outcome, error class, message, trace lines). The error scenario products that have a handler (every kind of built-in failure at the end of call chains through functions, methods, constructors, lambdas and fibers) and two fibers suspended inside finally blocks with their exceptions waiting are replayed as well.",
     note=MACHINE_NOTE + " Six genuine defects of try/finally compilation are recorded in known_findings.json (not small repairs).",
     technique="TLA+ reference machine + TLC-generated programs + scenario products replayed on the implementation; findings attributed by trigger", design="4 C08"),
  "C09": dict(
@@ -198,7 +198,7 @@ CHECKS = {
          "products of the caller's context at the switch (try body, catch block, finally with nothing / an exception / a return value pending, loop, "
          "argument evaluation) x the kind of switch x main-or-fiber, are run through the machine by TLC and replayed on checked and optimised builds; "
          "TraceVm.tla validates every switch event (a resumed fiber is exactly as it was left, caller chain +-1, both representations of the active fiber equal, "
-         "the in-flight flag untouched by a switch).",
+         "the in-flight flag untouched by a switch). Closures over a suspended scope's variables are written and read from both sides of the switch; two fibers suspended inside finally blocks with their exceptions waiting continue with their own exception; StackBudget.tla's rule that fibers nest to any depth - also after runs that died deep inside nested fibers - is replayed for depths 2 .. 1200.",
     note=MACHINE_NOTE + " Scenario products are built outside TLC (same static resolution as the compiler); the expectation always comes from the TLC run of Machine.tla.",
     technique="TLA+ reference machine (TLC) + scenario products replayed on the implementation", design="4 C09"),
  "C04": dict(
